@@ -157,7 +157,24 @@ def shape_of(t, env=None):
         tgt = a[1:]
         if tuple(tgt) == (-1, 1):
             return (sp.Mul(*s) if s else sp.Integer(1), sp.Integer(1))
-        raise Unknown("view")
+    if op in ("reshape", "view") and len(a) > 1:
+        s = so(a[0])
+        raw = a[1:]
+        if len(raw) == 1 and isinstance(raw[0], (tuple, list)):
+            raw = tuple(raw[0])
+        total = sp.Mul(*s) if s else sp.Integer(1)
+        known = [dim_expr(e, env) for e in raw if not (isinstance(e, int) and e == -1)]
+        if len(known) < len(raw) - 1:
+            raise ShapeError(f"{op}: more than one inferred extent")
+        rest = sp.Mul(*known) if known else sp.Integer(1)
+        tgt = tuple(sp.simplify(total / rest) if (isinstance(e, int) and e == -1) else dim_expr(e, env) for e in raw)
+        diff = sp.simplify(total - sp.Mul(*tgt))
+        if diff.is_zero is False:
+            raise ShapeError(f"{op}: {tuple(str(e) for e in s)} cannot be viewed as {tuple(str(e) for e in tgt)}")
+        # a re-shape keeps the order of the elements in memory: rules that care about the layout look at the pairs recorded here
+        if isinstance(env, dict):
+            env.setdefault("__reshapes__", []).append((tuple(s), tgt))
+        return tgt
     if op in ("expand_as", "view_as", "reshape_as"):
         tgt = so(a[1])
         if op == "expand_as":
@@ -184,7 +201,7 @@ def shape_of(t, env=None):
         if op == "stack":
             d = dim if dim >= 0 else dim + n + 1
             base = broadcast(*shapes)
-            return base[:d] + (sp.Integer(len(shapes)),) + base[d:]
+            return base[:d] + (sum(reps, sp.Integer(0)),) + base[d:]   # a `forall` element stands for one tensor per index of its range
         d = norm_dim(dim, n)
         for sh in shapes:
             if len(sh) != n:
